@@ -266,7 +266,8 @@ open Influx.Spec.C43
 def orgFilter (org : Nat) : Filter := { OrgID := some org }
 
 theorem filterFunc_org (m : Mapping) (org : Nat) : filterFunc m (orgFilter org) = decide (m.OrganizationID = org) := by
-  simp only [filterFunc, orgFilter, Option.isNone_none, Bool.true_or, Bool.true_and, Option.isNone_some, Bool.false_or,
+  rw [filterFunc_eq_spec]
+  simp only [filterFuncSpec, orgFilter, Option.isNone_none, Bool.true_or, Bool.true_and, Option.isNone_some, Bool.false_or,
     Bool.and_true]
   by_cases h : m.OrganizationID = org
   · simp [h]
@@ -432,7 +433,8 @@ theorem beq_swap {α : Type} [DecidableEq α] (a b : α) : (a == b) = (b == a) :
 
 theorem filterFunc_res (m : Mapping) (org : Nat) (db rp : String) :
     filterFunc m (resFilter org db rp) = (decide (m.OrganizationID = org) && isPair db rp m) := by
-  simp only [filterFunc, resFilter, isPair, Option.isNone_none, Bool.true_or, Bool.true_and, Option.isNone_some,
+  rw [filterFunc_eq_spec]
+  simp only [filterFuncSpec, resFilter, isPair, Option.isNone_none, Bool.true_or, Bool.true_and, Option.isNone_some,
     Bool.false_or, Bool.and_true, Option.some_beq_some]
   rw [beq_swap org, beq_swap db, beq_swap rp, Bool.and_assoc]
   congr 1
@@ -644,7 +646,8 @@ def defFilter (org : Nat) (db : String) : Filter :=
 
 theorem filterFunc_def (m : Mapping) (org : Nat) (db : String) :
     filterFunc m (defFilter org db) = (decide (m.OrganizationID = org) && (m.Database == db && m.Default)) := by
-  simp only [filterFunc, defFilter, Option.isNone_none, Bool.true_or, Bool.true_and, Option.isNone_some,
+  rw [filterFunc_eq_spec]
+  simp only [filterFuncSpec, defFilter, Option.isNone_none, Bool.true_or, Bool.true_and, Option.isNone_some,
     Bool.false_or, Bool.and_true, Option.some_beq_some]
   rw [beq_swap org, beq_swap db, Bool.and_assoc]
   congr 1
